@@ -28,6 +28,7 @@ type Op struct {
 	Sess    int      // session index
 	Args    []string // command
 	Advance int64    // virtual milliseconds that pass before the command is sent
+	Then    []Op     // macro: commands that follow immediately (each reply is compared)
 }
 
 func (o Op) String() string {
@@ -37,6 +38,9 @@ func (o Op) String() string {
 	}
 	if o.Sess != 0 {
 		s = fmt.Sprintf("c%d: %s", o.Sess, s)
+	}
+	for _, t := range o.Then {
+		s += " ; " + t.String()
 	}
 	return s
 }
@@ -84,6 +88,11 @@ type SeqSpec struct {
 	// Long: deterministic long histories (table growth / shrink); every step is compared on
 	// reply and full observable state.
 	Long [][]Op
+	// LazyFrom: sessions with index >= LazyFrom are connected when they send their first command
+	// (0 = all sessions are connected at the start)
+	LazyFrom int
+	// ObserveAll: dump the state through every connected session, not only through the observer
+	ObserveAll bool
 }
 
 // ---- one transition on the implementation ------------------------------------------------
@@ -241,6 +250,9 @@ func (x *seqExec) do(op Op) (vm.Reply, vm.Reply, error) {
 	before := x.model.Now
 	verifrt.SetNow(time.UnixMilli(x.model.Now).UTC().Add(time.Duration(x.ticks%900) * time.Microsecond))
 	want := x.model.Exec(op.Sess, op.Args)
+	if x.impl.clients[op.Sess] == nil {
+		x.impl.clients[op.Sess] = x.impl.vi.NewClient() // connects now
+	}
 	raw := x.impl.clients[op.Sess].Do(op.Args...)
 	got, err := vm.Parse1(raw)
 	if x.model.Now != before {
@@ -276,6 +288,10 @@ func runTransition(spec *SeqSpec, init int, path []int, op Op, ops []Op) (out st
 		vi := redisemu.VNew("")
 		x.impl = &implRun{vi: vi}
 		for i := 0; i <= nSess; i++ {
+			if spec.LazyFrom > 0 && i >= spec.LazyFrom && i < nSess {
+				x.impl.clients = append(x.impl.clients, nil)
+				continue
+			}
 			x.impl.clients = append(x.impl.clients, vi.NewClient())
 		}
 		if spec.Proto == 3 {
@@ -292,6 +308,17 @@ func runTransition(spec *SeqSpec, init int, path []int, op Op, ops []Op) (out st
 			if ok, why := vm.Match(want, got); !ok {
 				out = stepOutcome{Status: "diverged", Detail: fmt.Sprintf("%s %s: %s", stage, o, why)}
 				return false
+			}
+			for _, t := range o.Then {
+				w2, g2, err := x.do(t)
+				if err != nil {
+					out = stepOutcome{Status: "diverged", Detail: fmt.Sprintf("%s %s: %v", stage, t, err)}
+					return false
+				}
+				if ok, why := vm.Match(w2, g2); !ok {
+					out = stepOutcome{Status: "diverged", Detail: fmt.Sprintf("%s %s: %s", stage, t, why)}
+					return false
+				}
 			}
 			return true
 		}
@@ -336,9 +363,37 @@ func runTransition(spec *SeqSpec, init int, path []int, op Op, ops []Op) (out st
 			finished = true
 			return
 		}
+		for ti, t := range op.Then {
+			stepDesc = t.String()
+			ttpl, _ := template(spec, model, model.Sess[t.Sess].DB, t.Args)
+			pm := model.Clone()
+			w2, g2, err := x.do(t)
+			if err != nil {
+				out = stepOutcome{Status: "mismatch", Sig: fmt.Sprintf("%s|then%d:%s|resp-parse", sigBase, ti, ttpl), Detail: fmt.Sprintf("%s: %v", t, err)}
+				finished = true
+				return
+			}
+			if ok, why := vm.MatchCmd(pm, t.Sess, t.Args, w2, g2); !ok {
+				out = stepOutcome{Status: "mismatch", Sig: fmt.Sprintf("%s|then%d:%s|reply|%s->%s", sigBase, ti, ttpl, vm.Shape(w2), vm.Shape(g2)), Detail: fmt.Sprintf("%s ... %s: %s", op.Args, t, why)}
+				finished = true
+				return
+			}
+		}
 		// full observable state
 		stage = "observe"
 		probes := append(observation(spec, model, obs), spec.Probes...)
+		if spec.ObserveAll {
+			for si := 0; si < nSess; si++ {
+				if x.impl.clients[si] == nil || model.Sess[si].Multi || model.Sess[si].Blocked {
+					continue
+				}
+				back := model.Sess[si].DB
+				for _, p := range observation(spec, model, si) {
+					probes = append(probes, p)
+				}
+				probes = append(probes, Op{Sess: si, Args: []string{"SELECT", strconv.Itoa(back)}})
+			}
+		}
 		for _, p := range probes {
 			stepDesc = p.String()
 			w, g, err := x.do(p)
@@ -352,6 +407,19 @@ func runTransition(spec *SeqSpec, init int, path []int, op Op, ops []Op) (out st
 				out = stepOutcome{Status: "mismatch", Sig: sigBase + "|state|obs:" + ptpl + "|" + vm.Shape(w) + "->" + vm.Shape(g), Detail: fmt.Sprintf("after %s: %s: %s", op, p, why)}
 				finished = true
 				return
+			}
+		}
+		// per-connection session records (private-state probe, when it compiles)
+		if redisemu.VDeepSessionState != nil {
+			for si, cl := range x.impl.clients {
+				if cl == nil || si >= len(model.Sess) {
+					continue
+				}
+				if w, g := model.SessionState(si), redisemu.VDeepSessionState(cl); w != g {
+					out = stepOutcome{Status: "mismatch", Sig: sigBase + "|session|c" + strconv.Itoa(si), Detail: fmt.Sprintf("after %s: session record of connection %d: want {%s} got {%s}", op, si, w, g)}
+					finished = true
+					return
+				}
 			}
 		}
 		out.Status = "ok"
